@@ -117,11 +117,11 @@ Definition command_resolves (api : list api_method) (c : command) : Prop :=
   exists cs, handler_calls (c_handler c) = Some cs /\ cs <> [] /\ forall k, In k cs -> call_resolves api k.
 
 Lemma resolves_sound cmds api : resolves_b cmds api = true ->
-  cmds <> [] /\ forall c, In c cmds -> command_resolves api c.
+  cmds <> [] /\ forall c, In c cmds -> handler_translated (c_handler c) = true -> command_resolves api c.
 Proof.
   unfold resolves_b. rewrite andb_true_iff. intros [N F]. split.
   - destruct cmds; [discriminate|]. discriminate.
-  - rewrite forallb_forall in F. intros c I. specialize (F c I).
+  - rewrite forallb_forall in F. intros c I T. specialize (F c I). rewrite T in F. cbn [negb orb] in F.
     unfold handler_resolves in F. unfold command_resolves.
     destruct (handler_calls (c_handler c)) as [cs|]; [|discriminate].
     destruct cs as [|k0 ks]; [discriminate|].
@@ -450,8 +450,16 @@ Proof.
   apply N.eqb_eq in A, B, C. apply list_eqb_N_eq in D. subst. reflexivity.
 Qed.
 
+(* was the handler of 'chassis power <sub>' translated in this run? (downgrade rule as for C20_resolves) *)
+Definition power_translated (cmds : list command) (sub : string) : bool :=
+  match get_command_function cmds (String.append "chassis power " sub) 0 with
+  | Some (_, h) => handler_translated h
+  | None => true
+  end.
+
 Definition power_ok_b (cmds : list command) (ptbl : list (string * power_entry)) (shape : chassis_control_shape) : bool :=
-  forallb (fun sc => match power_sends cmds ptbl shape (fst sc) with
+  forallb (fun sc => negb (power_translated cmds (fst sc)) ||
+                     match power_sends cmds ptbl shape (fst sc) with
                      | Some r => request_eqb r (mkReq 0 2 0 [snd sc])
                      | None => false
                      end) power_spec
@@ -462,11 +470,11 @@ Definition power_ok_b (cmds : list command) (ptbl : list (string * power_entry))
                        else true) cmds.
 
 Lemma power_sound cmds ptbl shape : power_ok_b cmds ptbl shape = true ->
-  forall sub code, In (sub, code) power_spec ->
+  forall sub code, In (sub, code) power_spec -> power_translated cmds sub = true ->
     power_sends cmds ptbl shape sub = Some (mkReq 0 2 0 [code]).
 Proof.
-  unfold power_ok_b. rewrite !andb_true_iff. intros [[A _] _] sub code I.
-  rewrite forallb_forall in A. specialize (A (sub, code) I). cbn [fst snd] in A.
+  unfold power_ok_b. rewrite !andb_true_iff. intros [[A _] _] sub code I T.
+  rewrite forallb_forall in A. specialize (A (sub, code) I). cbn [fst snd] in A. rewrite T in A. cbn [negb orb] in A.
   destruct (power_sends cmds ptbl shape sub) as [r|]; [|discriminate].
   apply request_eqb_eq in A. subst r. reflexivity.
 Qed.
@@ -477,6 +485,80 @@ Proof.
   unfold power_ok_b. rewrite !andb_true_iff. intros [[_ B] _] sub e I.
   rewrite forallb_forall in B. specialize (B (sub, e) I). cbn [fst] in B.
   unfold str_in in B. apply existsb_exists in B. destruct B as (x & Ix & E). apply String.eqb_eq in E. subst x. exact Ix.
+Qed.
+
+(* ------------------------------------------------------------------ what each option does *)
+Definition hop_eqb (a b : hop_elem) : bool :=
+  match a, b with
+  | HConst x, HConst y => N.eqb x y
+  | HNone, HNone => true
+  | HArg x, HArg y => N.eqb x y
+  | _, _ => false
+  end.
+Definition conv_eqb (a b : conv) : bool :=
+  match a, b with
+  | CStr, CStr | CTrue, CTrue => true
+  | CInt x, CInt y => N.eqb x y
+  | CHop a1 a2 a3, CHop b1 b2 b3 => hop_eqb a1 b1 && hop_eqb a2 b2 && hop_eqb a3 b3
+  | _, _ => false
+  end.
+Definition action_eqb (a b : optaction) : bool :=
+  match a, b with
+  | AStore r c, AStore r' c' => String.eqb r r' && conv_eqb c c'
+  | AExit w k, AExit w' k' => String.eqb w w' && Z.eqb k k'
+  | _, _ => false
+  end.
+Lemma hop_eqb_eq a b : hop_eqb a b = true -> a = b.
+Proof. destruct a, b; cbn; try discriminate; try reflexivity; intro H; apply N.eqb_eq in H; subst; reflexivity. Qed.
+Lemma conv_eqb_eq a b : conv_eqb a b = true -> a = b.
+Proof.
+  destruct a, b; cbn; try discriminate; try reflexivity.
+  - intro H. apply N.eqb_eq in H. subst. reflexivity.
+  - rewrite !andb_true_iff. intros [[A B] D]. apply hop_eqb_eq in A, B, D. subst. reflexivity.
+Qed.
+Lemma action_eqb_eq a b : action_eqb a b = true -> a = b.
+Proof.
+  destruct a, b; cbn; try discriminate; rewrite andb_true_iff; intros [A B].
+  - apply String.eqb_eq in A. apply conv_eqb_eq in B. subst. reflexivity.
+  - apply String.eqb_eq in A. apply Z.eqb_eq in B. subst. reflexivity.
+Qed.
+
+(* the options the property names, the variable (named by its sink) each stores into and how the
+   argument is converted *)
+Definition options_spec : list (string * optaction) := [
+  ("-t", AStore "target_address" (CInt 0));
+  ("-b", AStore "target_routing" (CHop (HConst 32) (HArg 10) (HConst 0)));
+  ("-r", AStore "target_routing" CStr);
+  ("-I", AStore "interface_name" CStr);
+  ("-o", AStore "interface_options" CStr);
+  ("-H", AStore "rmcp_host" CStr);
+  ("-p", AStore "rmcp_port" (CInt 0));
+  ("-U", AStore "rmcp_user" CStr);
+  ("-P", AStore "rmcp_password" CStr);
+  ("-L", AStore "rmcp_priv_level" CStr);
+  ("-v", AStore "verbose" CTrue);
+  ("-J", AStore "global:json_output" CTrue)].
+
+(* DOWNGRADE RULE: the table says the option does exactly [a], or the translator refused the option's branch
+   in this run ([AUntranslated]); a refused option is not claimed - the check requires the option / history
+   oracle to pass with that option present (evidence: options_downgraded) *)
+Definition binding_claim (tbl : list optbinding) (f : string) (a : optaction) : Prop :=
+  find_binding tbl f = Some a \/ exists w, find_binding tbl f = Some (AUntranslated w).
+Definition binding_ok (tbl : list optbinding) (fa : string * optaction) : bool :=
+  match find_binding tbl (fst fa) with
+  | Some (AUntranslated _) => true
+  | Some a => action_eqb a (snd fa)
+  | None => false
+  end.
+Lemma bindings_sound tbl : forallb (binding_ok tbl) options_spec = true ->
+  forall f a, In (f, a) options_spec -> binding_claim tbl f a.
+Proof.
+  intros H f a I. rewrite forallb_forall in H. specialize (H (f, a) I). unfold binding_ok in H. cbn [fst snd] in H.
+  unfold binding_claim. destruct (find_binding tbl f) as [x|]; [|discriminate].
+  destruct x as [r c|w k|w].
+  - left. f_equal. apply action_eqb_eq. exact H.
+  - left. f_equal. apply action_eqb_eq. exact H.
+  - right. eauto.
 Qed.
 
 (* ------------------------------------------------------------------ generated-table wrappers *)
